@@ -14,6 +14,7 @@ type cfg04 struct {
 	writers []writer
 	subs    []subSpec
 	reverse bool // default scheduler prefers the newest thread
+	unlock  bool // scheduling point after every Unlock
 }
 
 var initial = map[string][]string{"t1": {"a/b", "x"}, "t2": {"a/b"}}
@@ -85,6 +86,13 @@ func configs04(tier string) []xplore.Config {
 	for _, sc := range [][]wop{{{"reset", ""}}, {{"upd", "a/c"}, {"reset", ""}}} {
 		out = append(out, xplore.Config{Name: fmt.Sprintf("attach during W(t1)=%s | %s", strings.ReplaceAll(scriptName(sc), "reset", "Reset"), subs[0]), Bound: bound,
 			Data: cfg04{writers: []writer{{"t1", sc}}, subs: []subSpec{subs[0]}}})
+	}
+	// single-operation programs once more with a scheduling point after every
+	// Unlock (the window between "found the queue empty under its lock" and
+	// "started waiting for the wake-up")
+	for _, o := range []wop{{"upd", "a/b"}, {"del", "a/b"}, {"atomic", "a/k"}} {
+		out = append(out, xplore.Config{Name: fmt.Sprintf("W(t1)=%s | %s [unlock points]", o, subs[0]), Bound: bound,
+			Data: cfg04{writers: []writer{{"t1", []wop{o}}}, subs: []subSpec{subs[0]}, unlock: true}})
 	}
 	// Reset regenerates a dozen metadata leaves and dominates the cost: one
 	// deviation less for scripts containing it in the quick tier; the thorough
@@ -166,7 +174,7 @@ func touched(ws []writer, t, p string) bool {
 func run04(cfg xplore.Config, ch vrt.Chooser, trace bool) (xplore.Outcome, *vrt.Result) {
 	d := cfg.Data.(cfg04)
 	var out xplore.Outcome
-	res := vrt.Run(ch, vrt.Options{Trace: trace, Reverse: d.reverse}, func() {
+	res := vrt.Run(ch, vrt.Options{Trace: trace, Reverse: d.reverse, UnlockPoints: vrt.DefaultUnlockPoints || d.unlock}, func() {
 		w := newWorld([]string{"t1", "t2"})
 		setupInitial(w)
 		w.wdone = make([]bool, len(d.writers))
